@@ -303,6 +303,8 @@ fn op_kind(o: &Op) -> u8 {
         Op::SetAlt { on } => 129 + *on as u8,
         Op::SetTight { on } => 131 + *on as u8,
         Op::AppPubrelBig { .. } => 133,
+        Op::SwapSide => 137,
+        Op::Regulate { alias, .. } => 134 + (*alias != 0) as u8 + (*alias & 0x80 != 0) as u8,
     }
 }
 
@@ -395,6 +397,7 @@ fn tune(prop: &str, c: &mut Cfg, p: &mut GenProfile, r: &mut Rng) {
             }
             p.w_pub = 50;
             p.w_peerpub = 25;
+            p.w_misc = 10;
         }
         "C14" => {
             v5(c);
@@ -407,7 +410,7 @@ fn tune(prop: &str, c: &mut Cfg, p: &mut GenProfile, r: &mut Rng) {
         }
         "C19" => {
             if c.wire_v == 5 && r.chance(1, 2) {
-                let l = [None, Some(5u32), Some(16), Some(20), Some(40)];
+                let l = [None, Some(16u32), Some(20), Some(40)];
                 c.c_mps = *r.pick(&l);
                 c.s_mps = *r.pick(&l);
             }
@@ -417,7 +420,7 @@ fn tune(prop: &str, c: &mut Cfg, p: &mut GenProfile, r: &mut Rng) {
         }
         "C15" => {
             if c.wire_v == 5 && r.chance(1, 3) {
-                let l = [None, Some(5u32), Some(16), Some(40)];
+                let l = [None, Some(16u32), Some(24), Some(40)];
                 c.c_mps = *r.pick(&l);
                 c.s_mps = *r.pick(&l);
             }
@@ -484,6 +487,21 @@ pub fn generate(prop: &str, rng: &mut Rng, tier: Tier, run: u64) -> (Case, Outco
         "C11" => return gen_c11(rng, tier, run),
         "C17" => return gen_c17(rng, tier, run),
         _ => {}
+    }
+    if prop == "C15" && run % 8 == 7 {
+        // bounded liveness under faithful timing: two real endpoints, keep-alive on, no faults
+        let mut cfg = crate::pair::gen_pcfg(rng, false);
+        cfg.ka = *rng.pick(&[5u16, 10, 60]);
+        cfg.pingresp_to_ms = *rng.pick(&[0u64, cfg.ka as u64 * 1000]);
+        cfg.c_mps = None;
+        cfg.s_mps = None;
+        cfg.fresh_server = false;
+        let mut p = crate::pair::Pair::new(cfg.clone());
+        let ops = crate::pair::live_run(&mut p, rng);
+        let mut o = pair_outcome(p, &ops);
+        o.nontrivial = true;
+        o.stats.hit("c15_keepalive_liveness_runs");
+        return (Case::Pair { cfg, ops }, o);
     }
     let faults = run % 4 != 0;
     let mut cfg = solo::gen_cfg(rng, faults);
@@ -642,7 +660,7 @@ fn fork_outcome(kind: ForkKind, cfg: &Cfg, ops: &[Op], cont: &[Op], mangle: Expo
         }
         ForkKind::Fresh => {
             // the comparison is about a NEW session: the script starts with its handshake
-            let skip = matches!(cont.first(), Some(Op::SetAlt { .. })) as usize;
+            let skip = cont.iter().take_while(|o| matches!(o, Op::SetAlt { .. } | Op::SwapSide)).count();
             if !(matches!(cont.get(skip), Some(Op::Connect { .. })) && matches!(cont.get(skip + 1), Some(Op::Connack { sp: false, rc: 0 }))) {
                 return Outcome::default();
             }
@@ -823,6 +841,11 @@ fn gen_c10(rng: &mut Rng, tier: Tier, run: u64) -> (Case, Outcome) {
     if rng.chance(1, 3) {
         cont = vec![Op::Connect { clean: false }, Op::Connack { sp: false, rc: 0 }];
         o.stats.hit("c10_new_session_by_session_not_present");
+    }
+    if cfg.role == Role::Any && cfg.ver != Ver::Undet && rng.chance(1, 2) {
+        // the reused object now plays the other side of the protocol
+        cont.insert(0, Op::SwapSide);
+        o.stats.hit("c10_any_role_swaps_side");
     }
     if rng.chance(1, 3) {
         // the new connection announces nothing: whatever the old one negotiated must be gone
